@@ -18,3 +18,17 @@ Print Assumptions C10_conversion_idempotent.
 Theorem C10_line_comments_lose_trailing_blanks : forall s, Census.trim_end (Census.trim_end s) = Census.trim_end s.
 Proof. exact TriviaProof.trim_end_idem. Qed.
 Print Assumptions C10_line_comments_lose_trailing_blanks.
+
+(* the two creators every line break and every indentation of the output comes from, regenerated from
+   src/context.rs on every run: the configured ending and nothing else; tabs only, or spaces in a multiple of indent_width *)
+From SV Require FmAst CtxOptionsProof.
+From SVgen Require CtxOptions.
+Theorem C10_created_line_ending_is_the_configured_one : forall l win,
+  Census.newlines_ok win (CtxOptions.line_ending_character l) = Bool.eqb win (CtxOptionsProof.is_windows l).
+Proof. exact CtxOptionsProof.line_ending_obeys_discipline. Qed.
+Print Assumptions C10_created_line_ending_is_the_configured_one.
+Theorem C10_created_indentation_obeys_the_setting : forall ty w n win eof,
+  Census.indent_ok {| Census.windows := win; Census.spaces := CtxOptionsProof.is_spaces ty; Census.width := w; Census.eof_formatted := eof |}
+    (CtxOptionsProof.ws_text (CtxOptions.create_plain_indent_trivia ty w n)) = true.
+Proof. exact CtxOptionsProof.indentation_obeys_discipline. Qed.
+Print Assumptions C10_created_indentation_obeys_the_setting.
